@@ -289,6 +289,22 @@ def standard_check(pid, reg, tier, seed, args, t0):
         if drift:
             drifts += 1
 
+    # thorough tier: a sample of the cases under Miri (undefined behaviour in the real code)
+    miri_stats = dict(ran=False)
+    if tier == "thorough" and not args.replay and reg.get("miri") and not v0.get("nightly") and not oracle_fail:
+        sample = [c for c in cases[:: max(1, len(cases) // 250)] if len(c) <= 30][:250]
+        mres, mprob = E.run_miri(sample, v0.get("features", ()), extra)
+        ref = dict(("\n".join(c), io) for c, io in zip(cases, impl))
+        differ = [(c, r) for c, r in zip(sample, mres) if r is not None and ref.get("\n".join(c)) not in (None, r)]
+        miri_stats = dict(ran=True, cases=len(sample), completed=sum(1 for r in mres if r is not None),
+                          problem=(mprob or {}).get("what"), outputs_differ=len(differ))
+        if mprob and mprob.get("case") is not None:
+            c = sample[mprob["case"]]
+            oracle_fail.append((c, impl[cases.index(c)] if c in cases else [], None,
+                                [f"miri: {mprob['what']} while running this script", mprob["stderr"][-600:]]))
+        elif differ:
+            c, r = differ[0]
+            oracle_fail.append((c, r, None, ["miri: the interpreted run prints something else than the native run"]))
     for xo in reg.get("cross_oracles", []):
         for ci, problem in xo(cases, impl):
             if not any(c is cases[ci] for c, _, _, _ in oracle_fail):
@@ -394,6 +410,7 @@ def standard_check(pid, reg, tier, seed, args, t0):
             proof_obligations_broken=lean["broken"], notes=lean["notes"] + extra_notes,
             translated_source=dict(translator="translate/t3_core.py -> Generated/Core.lean", **lean.get("t3", {}),
                                    driver_src=src_stats),
+            miri=miri_stats,
             source_drift=dict(changed_since_modelled=drifted,
                               effect="none" if not drifted else "quick tier widened by a sample of the thorough case set"),
             explanation=reg.get("explanation", ""),
